@@ -8,7 +8,8 @@
      eval_list [] st = (Ok [], st)
      eval_list (a :: t) st = evaluate a in st, then t in the resulting state; stop at the first failure. *)
 From Coq Require Import List ZArith Bool.
-From Formula Require Import Sem.Eval Proofs.EvalFacts.
+From Coq Require Import String.
+From Formula Require Import Gen.Effects Conc.Footprint Sem.Eval Proofs.EvalFacts.
 Import ListNotations.
 Local Open Scope Z_scope.
 
@@ -117,6 +118,15 @@ Theorem resolve_entry_frame : forall hosts off e st r st',
   match r_this st with Some m => assoc k m | None => None end.
 Proof. exact EvalFacts.resolve_entry_frame. Qed.
 
+(* the code side (write footprints regenerated from the SSA form on every run): neither the evaluator nor any
+   builtin stores into an object it was handed, and a number that may be shared (a parameter, something loaded
+   from the data, the result of a coercion) reaches the decimal package only in operand positions - never as the
+   receiver of a mutating method or as the destination argument of a Context method *)
+Theorem stored_numbers_never_written :
+  forallb eval_write_ok (writes_of eval_entry) = true /\ forallb private_write (writes_of builtin_entry) = true.
+Proof. exact (conj eval_footprint builtins_footprint). Qed.
+
+Print Assumptions stored_numbers_never_written.
 Print Assumptions assign_binds.
 Print Assumptions dollar_not_builtin.
 Print Assumptions assign_then_read.
